@@ -42,6 +42,10 @@ type c07Delivery struct {
 	Arg    int    `json:"arg,omitempty"`
 	Rehash bool   `json:"rehash,omitempty"` // the tamperer also recomputes the declared hash
 	Path   string `json:"path"`             // net client runwrite0 runwriteN
+	// With (net path): 1+index of an honest transaction that travels intact in the same batch, behind
+	// the (tampered) one, or in front of it when WithFirst
+	With      int  `json:"with,omitempty"`
+	WithFirst bool `json:"withfirst,omitempty"`
 }
 
 type c07Plan struct {
@@ -68,16 +72,16 @@ func (c07) Budget(tier string) runner.Budget {
 
 func (c07) Describe() runner.Description {
 	return runner.Description{
-		Rule:        "each plan: 2..6 honestly signed transactions (native with harness keys; EIP-155 wrapped Ethereum transactions for this chain id) and 10..60 deliveries, each either intact or tampered by exactly one mutation: substitution of one authenticated field (source, target, type, data, extra data, nonce, chain id, time, declared hash - with or without the tamperer recomputing the hash), signature r/s/v bit flips, signature spliced from another honest transaction, one bit flipped anywhere in the marshalled bytes (when it still parses); for wrapped transactions additionally outer-field substitutions, bit flips in the RLP payload, and inner re-encodings (to/nonce/value/gas/data/chain id changed under the original signature; unrecoverable signatures and other-chain signatures declaring the zero address as sender). Ingress paths: peer-to-peer TransactionGotMsg bytes (as envelope, or inside a gateway frame of every accepted method), client write topic, queued write handler (both branches). Direct probes: honest transactions of keys whose public point has a coordinate with a leading zero byte (sender address from an independent Keccak over the padded coordinates) must pass; on a chain whose id changes at a fork height, native and wrapped transactions signed for either id are verified at heights on either side of the fork in a seeded order (accepted exactly when the ids match); bytes appended behind the signed RLP payload must be refused. Exact oracle at quiescence: every pending transaction equals an honestly signed one on all authenticated fields; every honest transaction delivered intact is pending. distinct_nontrivial = distinct (ingress path, mutation kind, tx form, rehash) tuples exercised.",
+		Rule:        "each plan: 2..6 honestly signed transactions (native with harness keys; EIP-155 wrapped Ethereum transactions for this chain id) and 10..60 deliveries, each either intact or tampered by exactly one mutation: substitution of one authenticated field (source, target, type, data, extra data, nonce, chain id, time, declared hash - with or without the tamperer recomputing the hash), signature r/s/v bit flips, signature spliced from another honest transaction, one bit flipped anywhere in the marshalled bytes (when it still parses); for wrapped transactions additionally outer-field substitutions, bit flips in the RLP payload, and inner re-encodings (to/nonce/value/gas/data/chain id changed under the original signature; unrecoverable signatures and other-chain signatures declaring the zero address as sender). Ingress paths: peer-to-peer TransactionGotMsg bytes (as envelope, or inside a gateway frame of every accepted method; alone or in one batch with an intact honest transaction in front of or behind it), client write topic, queued write handler (both branches). Direct probes: honest transactions of keys whose public point has a coordinate with a leading zero byte (sender address from an independent Keccak over the padded coordinates) must pass; on a chain whose id changes at a fork height, native and wrapped transactions signed for either id are verified at heights on either side of the fork in a seeded order (accepted exactly when the ids match); bytes appended behind the signed RLP payload must be refused. Exact oracle at quiescence: every pending transaction equals an honestly signed one on all authenticated fields; every honest transaction delivered intact is pending. distinct_nontrivial = distinct (ingress path, mutation kind, tx form, rehash) tuples exercised.",
 		Assumptions: []string{"unauthenticated fields (request id, socket id, sub-transactions) are not mutated"},
 		Real:        []string{"service.VerifyTransaction (hash, chain id, signature, EIP-155 path, compareTx)", "common secp256k1 sign/recover", "eth_tx (RLP, EIP-155 signer, ConvertTx)", "network receive path (envelope + transaction codecs)", "core game executor ingress handlers", "notify bus fan-out under the simulated scheduler"},
 		Stub:        []string{"websocket gate (bytes are injected at handleMessage)", "ConsensusHelper"},
-		FaultKinds:  []string{"tamper_field", "tamper_bitflip", "tamper_signature", "tamper_inner_rlp", "replay_intact", "key_with_short_coordinate", "chain_id_fork_crossed", "unprotected_eth_tx"},
+		FaultKinds:  []string{"tamper_field", "tamper_bitflip", "tamper_signature", "tamper_inner_rlp", "replay_intact", "key_with_short_coordinate", "chain_id_fork_crossed", "unprotected_eth_tx", "batch_with_honest_neighbour"},
 	}
 }
 
 var c07NativeMuts = []string{"src", "tgt", "type", "data", "extra", "nonce", "chain", "time", "hash", "sig-r", "sig-s", "sig-v", "sig-twin", "splice", "bitflip"}
-var c07EthMuts = []string{"src", "tgt", "type", "data", "nonce", "chain", "hash", "extra-bit", "in-to", "in-nonce", "in-value", "in-gas", "in-data", "in-chain", "in-chain-zero", "in-garbage-zero", "in-src-zero", "extra-append", "bitflip"}
+var c07EthMuts = []string{"src", "tgt", "type", "data", "nonce", "chain", "hash", "extra-bit", "in-to", "in-nonce", "in-value", "in-gas", "in-data", "in-chain", "in-chain-zero", "in-garbage-zero", "in-src-zero", "extra-append", "extra-noncanon", "extra-noncanon", "bitflip"}
 
 func (c07) Gen(seed uint64, tier string) json.RawMessage {
 	r := simrt.NewRand(seed)
@@ -89,6 +93,9 @@ func (c07) Gen(seed uint64, tier string) json.RawMessage {
 	paths := []string{"net", "net", "net", "client", "runwrite0", "runwriteN"}
 	for i := 0; i < n; i++ {
 		d := c07Delivery{Tx: r.Intn(p.Native + p.Eth), Path: paths[r.Intn(len(paths))], Arg: r.Intn(1 << 20), Rehash: r.Chance(0.4)}
+		if d.Path == "net" && r.Chance(0.3) {
+			d.With, d.WithFirst = 1+r.Intn(p.Native+p.Eth), r.Chance(0.3)
+		}
 		if r.Chance(0.72) {
 			if d.Tx < p.Native {
 				d.Mut = c07NativeMuts[r.Intn(len(c07NativeMuts))]
@@ -129,6 +136,79 @@ func c07AuthKey(t *types.Transaction) string {
 		return strings.Join([]string{t.Source, t.Target, fmt.Sprint(t.Type), t.Data, t.ExtraData, fmt.Sprint(t.Nonce), t.ChainId, "", t.Hash.Hex(), ""}, "|")
 	}
 	return strings.Join([]string{t.Source, t.Target, fmt.Sprint(t.Type), t.Data, t.ExtraData, fmt.Sprint(t.Nonce), t.ChainId, t.Time, t.Hash.Hex(), sig}, "|")
+}
+
+// c07EthValue: a third of the wrapped Ethereum transactions move no value (plain contract calls).
+func c07EthValue(i int) *big.Int {
+	if i%3 == 1 {
+		return big.NewInt(0)
+	}
+	return big.NewInt(int64(1000 + i))
+}
+
+// rlpSplitList returns the raw encodings of the items of an RLP list (nil, false if b is not exactly one list).
+func rlpSplitList(b []byte) ([][]byte, bool) {
+	if len(b) == 0 || b[0] < 0xc0 {
+		return nil, false
+	}
+	hdr := func(b []byte, short, long byte) (start, end int, ok bool) {
+		switch {
+		case b[0] <= short+55:
+			start, end = 1, 1+int(b[0]-short)
+		default:
+			ll := int(b[0] - long)
+			if ll > 4 || len(b) < 1+ll {
+				return 0, 0, false
+			}
+			n := 0
+			for _, x := range b[1 : 1+ll] {
+				n = n<<8 | int(x)
+			}
+			start, end = 1+ll, 1+ll+n
+		}
+		return start, end, end <= len(b)
+	}
+	start, end, ok := hdr(b, 0xc0, 0xf7)
+	if !ok || end != len(b) {
+		return nil, false
+	}
+	var items [][]byte
+	for p := b[start:end]; len(p) > 0; {
+		n := 1
+		switch {
+		case p[0] < 0x80:
+		case p[0] < 0xc0:
+			_, e, ok := hdr(p, 0x80, 0xb7)
+			if !ok {
+				return nil, false
+			}
+			n = e
+		default:
+			_, e, ok := hdr(p, 0xc0, 0xf7)
+			if !ok {
+				return nil, false
+			}
+			n = e
+		}
+		items = append(items, append([]byte{}, p[:n]...))
+		p = p[n:]
+	}
+	return items, true
+}
+
+func rlpJoinList(items [][]byte) []byte {
+	var body []byte
+	for _, it := range items {
+		body = append(body, it...)
+	}
+	if len(body) <= 55 {
+		return append([]byte{0xc0 + byte(len(body))}, body...)
+	}
+	var l []byte
+	for n := len(body); n > 0; n >>= 8 {
+		l = append([]byte{byte(n)}, l...)
+	}
+	return append(append([]byte{0xf7 + byte(len(l))}, l...), body...)
 }
 
 func flipBit(b []byte, i int) []byte {
@@ -267,6 +347,31 @@ func c07Mutate(h c07Honest, all []c07Honest, d c07Delivery, chainID *big.Int) *t
 		raw := common.FromHex(t.ExtraData)
 		junk := simrt.NewRand(uint64(d.Arg) + 7).Bytes(1 + d.Arg%3)
 		t.ExtraData = common.ToHex(append(append([]byte{}, raw...), junk...))
+	case "extra-noncanon":
+		// the same field values in a second, non-canonical RLP spelling: the carried payload differs from the
+		// signed bytes, every decoded field is the honest one
+		items, ok := rlpSplitList(common.FromHex(t.ExtraData))
+		if !ok || len(items) != 9 {
+			return nil
+		}
+		ints := []int{0, 1, 2, 4, 6, 7, 8} // nonce, gas price, gas, value, v, r, s
+		done := false
+		for off := 0; off < len(ints) && !done; off++ {
+			j := ints[(d.Arg+off)%len(ints)]
+			it := items[j]
+			switch {
+			case len(it) == 1 && it[0] == 0x80: // zero: the empty string -> a lone zero byte
+				items[j], done = []byte{0x00}, true
+			case len(it) == 1 && it[0] < 0x80: // a single small byte -> a one-byte string
+				items[j], done = []byte{0x81, it[0]}, true
+			case it[0] > 0x80 && it[0] < 0xb7: // a short string -> one leading zero byte more
+				items[j], done = append([]byte{it[0] + 1, 0x00}, it[1:]...), true
+			}
+		}
+		if !done {
+			return nil
+		}
+		t.ExtraData = common.ToHex(rlpJoinList(items))
 	case "in-to", "in-nonce", "in-value", "in-gas", "in-data", "in-chain", "in-chain-zero", "in-garbage-zero", "in-src-zero":
 		e := h.eth
 		to := common.Address{}
@@ -372,7 +477,7 @@ func (c07) Exec(raw json.RawMessage, st *simrt.Stats, log *simrt.Log) *simrt.Vio
 	}
 	for i := 0; i < p.Eth; i++ {
 		k := (i + 1) % 4
-		e := eth_tx.NewTransaction(uint64(i), common.HexToAddress(node.Account(i%8)), big.NewInt(int64(1000+i)), 3000000+uint64(i), big.NewInt(1000000000), []byte{1, 2, byte(i)})
+		e := eth_tx.NewTransaction(uint64(i), common.HexToAddress(node.Account(i%8)), c07EthValue(i), 3000000+uint64(i), big.NewInt(1000000000), []byte{1, 2, byte(i)})
 		signed, err := eth_tx.SignTx(e, eth_tx.NewEIP155Signer(chainID), &node.HarnessKeys[k].SK.PrivKey)
 		if err != nil {
 			panic(runner.InfraError{Msg: "eth sign: " + err.Error()})
@@ -450,7 +555,23 @@ func (c07) Exec(raw json.RawMessage, st *simrt.Stats, log *simrt.Log) *simrt.Vio
 			st.Ops++
 			switch d.Path {
 			case "net":
-				body, err := types.MarshalTransactions([]*types.Transaction{tx})
+				batch := []*types.Transaction{tx}
+				if d.With > 0 {
+					// a peer answers with a batch: a forged and an honest transaction side by side
+					wi := (d.With - 1) % len(honest)
+					c := *honest[wi].tx
+					if len(c.SubTransactions) == 0 {
+						c.SubTransactions = []types.UserData{{}}
+					}
+					intact[wi] = true
+					if d.WithFirst {
+						batch = []*types.Transaction{&c, tx}
+					} else {
+						batch = append(batch, &c)
+					}
+					st.Fault("batch_with_honest_neighbour")
+				}
+				body, err := types.MarshalTransactions(batch)
 				if err != nil {
 					continue
 				}
